@@ -8,7 +8,10 @@ interpreter) and (iii) the Lean model `Ebv.ProcVar`.  The oracle is a reference 
 History of the PacketVar objects is part of the input: devices may have run before in another sync group
 (`prior`), and one PacketVar object may be linked to two devices (`alias`).  These scenarios (`stale(case)`,
 `shared(case)`) broke the Python path's cached accessors before the repair "fix: process variables kept stale
-offsets when a device changed its sync group"; they are ordinary cases now and must pass the oracle."""
+offsets when a device changed its sync group"; they are ordinary cases now and must pass the oracle.
+A third kind of history is the *restart* (`restart`: the configurations of 1-2 earlier starts): the same SyncGroup object is started
+through the real `SyncGroup.start()`, runs a cycle, its terminals get other process-data sizes / FMMU use, and it is started again
+(the fast group: allocate + Python reads, then allocate + assemble); the oracle knows only the present configuration."""
 import struct
 
 from .. import interp, progs
@@ -26,6 +29,7 @@ THEOREMS = [
     "Ebv.C19.step_agree", "Ebv.C19.run_agree", "Ebv.C19.rel_init",
     "Ebv.C19.run_agree_full", "Ebv.C19.run_agree_full_old_refuted", "Ebv.C19.run_agree_full_old_refuted_shared",
     "Ebv.C19.stale_start_old_vs_new", "Ebv.C19.shared_new_ok",
+    "Ebv.C19.restart_invariant", "Ebv.C19.restart_agree", "Ebv.C19.restart_read", "Ebv.C19.restart_witness",
     "Ebv.C19.prog_addr_in_payload", "Ebv.C19.resolve_packet", "Ebv.C19.resolve_process", "Ebv.C19.width_table",
 ]
 TRUSTED = ["hand-written model Ebv.ProcVar of PacketVar.get/set (Python path) and of the code Memory.calculate/_set emit for "
@@ -38,10 +42,14 @@ ASSUMPTIONS = ["values written are representable in the destination format (othe
                "pdo_assign is what allocate() computes (C18); the harness re-derives the layout independently and requires equality",
                "a cached accessor is modelled as (device, pdo_assign of the terminal it was built under); `pdo_assign is not assign` as "
                "inequality of that assignment (an equal assignment gives the same start); one PacketVar object = one terminal variable",
+               "a group that is started again keeps its terminals and their positions (SyncGroupBase orders its terminals once, in __init__); "
+               "what changes between starts are the terminals' process-data sizes and FMMU use; a fast group is allocated again before "
+               "its program is assembled (EBPF.assemble appends, a group cannot be assembled twice)",
                "DeviceVars hold values of their own format; a Struct linked directly to a TerminalVar cannot be put into a sync group "
                "(Device.get_terminals needs .sm) and assigning to a Struct member only shadows the descriptor: not exercised"]
-RULE = ("history: fresh objects (~80%), devices that ran before in a sync group of their own (~15%), a PacketVar object linked to two "
-        "devices (~5%); case = 1-3 terminals (FMMU or not, random position/sizes, pdos table with byte formats and bit numbers, several variables "
+RULE = ("history: fresh objects (~65%), devices that ran before in a sync group of their own (~15%), the group object itself started "
+        "once or twice before (real SyncGroup.start(); FastSyncGroup: allocate + Python reads) while its terminals had other process-data "
+        "sizes / FMMU use (~15%), a PacketVar object linked to two devices (~5%); case = 1-3 terminals (FMMU or not, random position/sizes, pdos table with byte formats and bit numbers, several variables "
         "sharing a byte, Struct channels with sm3/sm2/coe offsets, ProcessDesc with size override, PacketDesc) x 1-2 generated Device "
         "subclasses whose program()/update() run 1-5 statements (var=var, bit=bit, bit=const, var=const, dv=var, var=dv, bit=var, "
         "var=bit, bit=dv) x random region contents (sign-bit/all-ones biased) and Ethernet header; non-trivial = the frame changes "
@@ -162,6 +170,28 @@ def shared(case):
     return any(v.get("alias") is not None and case["vars"][v["alias"]]["dev"] != v["dev"] for v in case["vars"])
 
 
+def earlier_case(case, k):
+    """the configuration the group had at its k-th earlier start (`restart`: per start, per terminal the process-data sizes
+    and the FMMU flag of that time); positions, PDO tables, variables and statements are those of the case"""
+    return {**case, "terms": [{**t, **o} for t, o in zip(case["terms"], case["restart"][k])]}
+
+
+def restarted(case):
+    """history class `restart`: the group object itself was started before under another configuration and some accessed
+    variable started elsewhere then"""
+    g, w = accessed(case)
+    now = starts(layout(case), case)
+    return any(starts(layout(earlier_case(case, k)), case)[vi] != now[vi]
+               for k in range(len(case.get("restart") or [])) for vi in g | w)
+
+
+def history(case):
+    if case.get("restart"):
+        return "restart-changed-start" if restarted(case) else "restart-same-start"
+    return ("stale-start" if stale(case) else "earlier-group-same-start" if case.get("prior") else
+            "shared-packetvar" if shared(case) else "fresh-objects")
+
+
 def ordered_ops(case):
     return sorted(case["ops"], key=lambda o: o["dev"])     # stable: devices run in order, statements in program order
 
@@ -209,7 +239,7 @@ class Impl:
 
     def groups(self, case):
         key = canon({"t": case["terms"], "v": case["vars"], "d": [(d["dev"], d["fmt"]) for d in case["dvs"]], "o": case["ops"]})
-        if case.get("prior") or any(v.get("alias") is not None for v in case["vars"]):
+        if case.get("prior") or case.get("restart") or any(v.get("alias") is not None for v in case["vars"]):
             key = None              # the history of the PacketVar objects matters: fresh objects for every case
         if key is None or key != self.key:
             self.S = progs.procvar_group(case, fast=False)
@@ -237,7 +267,10 @@ class Impl:
 
     def run_py(self, case, S, frame):
         sg = S["sg"]
-        sg.current_data = bytearray(frame)
+        if isinstance(sg.current_data, bytearray):       # the group was started: its process image is refreshed in place
+            sg.current_data[:] = frame
+        else:
+            sg.current_data = bytearray(frame)
         for j, d in enumerate(case["dvs"]):
             setattr(S["devs"][d["dev"]], f"dv{j}", d["init"])
         try:
@@ -296,7 +329,7 @@ def check_one(ctx, impl, case):
     except Exception as e:        # the working tree cannot build the groups / generate the program for this configuration
         impl.key = None
         ctx.require(False, "sync groups cannot be built / program cannot be generated", case, f"{type(e).__name__}: {e}", "build")
-        return "build-error", b"", None, True, False, sorted(opkind(case, lay, o) for o in case["ops"])
+        return "build-error", b"", {"prior": None, "slow": [], "fast": []}, True, False, sorted(opkind(case, lay, o) for o in case["ops"])
     # layout and offset resolution of the real objects against the independent one
     for G, nm in ((S, "slow"), (F, "fast")):
         real = {(ti, sm.value): off for ti, t in enumerate(G["terms"]) if t in G["sg"].pdo_assign
@@ -323,6 +356,12 @@ def check_one(ctx, impl, case):
         psg = S["prior"]["sg"]
         real = {(ti, sm.value): off for ti, t in enumerate(S["terms"]) if t in psg.pdo_assign for sm, off in psg.pdo_assign[t].items()}
         ctx.require(real == pl["regions"], "earlier group: terminal regions differ from the frame layout", case, f"{real} vs {pl['regions']}", "layout")
+    for G, nm in ((S, "slow"), (F, "fast")):               # the earlier starts of the same group were laid out as declared then
+        for k, r in enumerate(G["restarts"]):
+            el = layout(earlier_case(case, k))
+            real = {(ti, sm.value): off for ti, t in enumerate(G["terms"]) if t in r["assign"] for sm, off in r["assign"][t].items()}
+            ctx.require(real == el["regions"], f"{nm} group, earlier start {k}: terminal regions differ from the frame layout", case,
+                        f"{real} vs {el['regions']}", "layout")
     if ref is not None:
         want, wvals, own = ref
         obs = f"python={pyout if isinstance(pyout, str) else pyout.hex()} program={fastout[14:].hex()} want={want.hex()} values py={pyvals} prog={fastvals} want={wvals}"
@@ -344,8 +383,8 @@ def check_one(ctx, impl, case):
                             "own-bytes")
     changed = ref is not None and (ref[0] != pyframe or any(o["op"] == "get" for o in case["ops"]))
     kinds = sorted(opkind(case, lay, o) for o in case["ops"])
-    return (fmt_line(real_st, [a for _, a in real_fa], pyout, pyvals, pyreads, fastout, fastvals, fastreads), pyframe, S["prior"],
-            ref is not None, changed, kinds)
+    return (fmt_line(real_st, [a for _, a in real_fa], pyout, pyvals, pyreads, fastout, fastvals, fastreads), pyframe,
+            {"prior": S["prior"], "slow": S["restarts"], "fast": F["restarts"]}, ref is not None, changed, kinds)
 
 
 def opkind(case, lay, o):
@@ -529,7 +568,9 @@ def gen_case_config(rng):
     ndev = 1 + max(o["dev"] for o in ops)
     if r < 0.15:            # the devices (or one of them) ran before in a sync group of their own
         cfg["prior"] = {"devs": rng.choice([[0], [1], [1], [0, 1]]) if ndev == 2 else [0]}
-    elif r < 0.2:           # a second device is linked to the very PacketVar object a first one uses
+    elif r < 0.3:           # the group itself was started before (once or twice) while its terminals were configured differently
+        cfg["restart"] = gen_restart(rng, cfg)
+    elif r < 0.35:          # a second device is linked to the very PacketVar object a first one uses
         g, w = accessed(cfg)
         cand = [vi for vi, v in enumerate(vars_) if v["dev"] == 0 and vi in g | w]
         if cand:
@@ -544,6 +585,30 @@ def gen_case_config(rng):
                 c = rng.choice([0, 1]) if isinstance(size, int) else gen_const(rng, size)
                 ops.append({"dev": 1, "op": "set", "dst": len(vars_) - 1, "src": ["const", c]})
     return cfg
+
+
+def gen_restart(rng, cfg):
+    """1-2 earlier configurations of the terminals: process-data sizes grown or shrunk (never below what the variables and
+    the PDO table need), FMMU use switched; at least one terminal differs each time"""
+    need = {}
+    for v in cfg["vars"]:
+        sm, pos, size = resolve(cfg, v)
+        need[v["t"], sm] = max(need.get((v["t"], sm), 0), pos + (1 if isinstance(size, int) else width(size)))
+    for ti, ts in enumerate(cfg["terms"]):
+        for i, s_, sm, off, size in ts["pdos"]:
+            need[ti, sm] = max(need.get((ti, sm), 0), off + (1 if isinstance(size, int) else width(size)))
+    out = []
+    for _ in range(rng.choice([1, 1, 2])):
+        conf = [{"in_sz": ts["in_sz"], "out_sz": ts["out_sz"], "fmmu": ts["fmmu"]} for ts in cfg["terms"]]
+        for ti in rng.sample(range(len(conf)), rng.randrange(1, len(conf) + 1)):
+            c = conf[ti]
+            for key, sm in (("in_sz", IN), ("out_sz", OUT)):
+                if rng.random() < 0.6:
+                    c[key] = max(need.get((ti, sm), 0), c[key] + rng.choice([-3, -2, -1, 1, 1, 2, 3, 8]))
+            if rng.random() < 0.3:
+                c["fmmu"] = not c["fmmu"]
+        out.append(conf)
+    return out
 
 
 def gen_contents(rng, cfg):
@@ -576,12 +641,20 @@ def model_line(case, lay, pyframe, prior):
     ops = [{"op": o["op"], **({"dv": o["dv"], "src": o["src"]} if o["op"] == "get" else
                               {"dst": o["dst"], "kind": o["src"][0], "x": int(o["src"][1])})} for o in ordered_ops(case)]
     line = {"frame": pyframe.hex(), "hdr": case["hdr"], "vars": vs, "dvs": [[d["fmt"], d["init"]] for d in case["dvs"]], "ops": ops}
+    hist, prior = prior, prior["prior"]
     if prior is not None:            # the earlier group: its layout (independent), its frame, the statements of its devices
         pl = layout(case, case["prior"]["devs"])
-        line["prior"] = {"assign": [[pl["regions"].get((v["t"], IN)), pl["regions"].get((v["t"], OUT))] if v["dev"] in case["prior"]["devs"]
-                                    else None for v in case["vars"]],
-                         "frame": prior["frame"].hex(),
-                         "ops": [m for m, o in zip(ops, ordered_ops(case)) if o["dev"] in case["prior"]["devs"]]}
+        line["prior"] = [{"assign": [[pl["regions"].get((v["t"], IN)), pl["regions"].get((v["t"], OUT))] if v["dev"] in case["prior"]["devs"]
+                                     else None for v in case["vars"]],
+                          "frame": prior["frame"].hex(),
+                          "ops": [m for m, o in zip(ops, ordered_ops(case)) if o["dev"] in case["prior"]["devs"]]}]
+    # earlier starts of the same group (independent layout of the configuration of that time): the slow group ran one cycle of
+    # all statements each time, in the fast group Python read every variable
+    for key, rs in (("prior", hist["slow"]), ("fprior", hist["fast"])):
+        for k, r in enumerate(rs):
+            el = layout(earlier_case(case, k))
+            line.setdefault(key, []).append({"assign": [[el["regions"].get((v["t"], IN)), el["regions"].get((v["t"], OUT))] for v in case["vars"]],
+                                             "frame": r["frame"].hex(), "ops": ops if key == "prior" else []})
     return line
 
 
@@ -597,8 +670,7 @@ def run(ctx):
             case = gen_contents(ctx.rng, cfg)
             out, pyframe, prior, indomain, changed, kinds = check_one(ctx, impl, case)
             ctx.case(case, nontrivial=changed, kind="representable" if indomain else "unrepresentable")
-            ctx.stats["history:" + ("stale-start" if stale(case) else "earlier-group-same-start" if case.get("prior") else
-                                    "shared-packetvar" if shared(case) else "fresh-objects")] += 1
+            ctx.stats["history:" + history(case)] += 1
             for k in kinds:                      # distribution: statement kinds, formats, layout features
                 a, b = k.split("=")
                 ctx.stats["stmt:" + a.split(":")[0] + "=" + b.split(":")[0]] += 1
@@ -628,7 +700,7 @@ def flush(ctx, cases, outs, lines):
 def replay(ctx, case):
     out, pyframe, prior, indomain, changed, kinds = check_one(ctx, Impl(), case)
     return {"result": out, "representable": indomain, "statements": kinds,
-            "history": "stale-start" if stale(case) else "shared-packetvar" if shared(case) else "none"}
+            "history": history(case)}
 
 
 LEVEL_TEXT = ("Lean 4 proof over a hand-written model of both paths: for all frames, offsets, formats B H I Q b h i q and bit numbers 0..7 and all "
@@ -641,7 +713,10 @@ LEVEL_TEXT = ("Lean 4 proof over a hand-written model of both paths: for all fra
               "and DeviceVar values of the Python path as _start of the present group defines it (run_agree), and of the real Python path with "
               "its accessors cached on the PacketVar objects whatever is cached there (earlier sync groups, objects linked to several "
               "devices): run_agree_full, no hypothesis on the history. The caching before the repair commit is kept as bindOld and refuted "
-              "on the two former witnesses (run_agree_full_old_refuted, ..._shared; stale_start_old_vs_new, shared_new_ok). Tie: three-way exact correspondence "
+              "on the two former witnesses (run_agree_full_old_refuted, ..._shared; stale_start_old_vs_new, shared_new_ok). Restart: whatever "
+              "history of earlier starts the objects went through (same group re-allocated under other layouts, other groups, cycles ended by "
+              "exceptions, Python reads in a fast group) the present cycle is that of fresh objects and agrees with the program "
+              "(restart_invariant, restart_agree, restart_read; restart_witness = the case an accessor that survives allocate() gets wrong). Tie: three-way exact correspondence "
               "(real Python path, real bytecode re-assembled every run and interpreted, model) on random terminals / PDO maps / devices.")
 LEVEL_NOTE = ("trusted: Lean kernel + standard axioms; hand model validated by differential execution (not verified against the bytecode); "
               "interpreter semantics; unrepresentable values, bit numbers > 7, direct Struct links are outside the property")
